@@ -2,6 +2,7 @@
 from __future__ import annotations
 
 import ast
+import itertools
 import io
 import random
 import tokenize as pytok
@@ -393,6 +394,13 @@ def run_shard(shard):
     if kind == "fixed":
         for s in FIXED:
             check_case(acc, s, "fixed")
+        # what follows a literal that ran over lines (a backslash continuation inside a field, a field spread over lines): the line
+        # structure of the next statement (NEWLINE/NL, INDENT/DEDENT, end of input) belongs to the f-string's token stream as well
+        from . import c09
+
+        for lit, tail in itertools.product(c09.SPANNING, c09.AFTER):
+            for src in ("if x:\n    " + lit + "\n" + tail, lit + "\n" + tail.lstrip(" "), ("if x:\n    " + lit + "\n" + tail).replace("\n", "\r\n")):
+                check_case(acc, src, "after-spanning-literal")
     elif kind == "product":
         for _ in range(shard["n"]):
             check_case(acc, gen_case(rnd), "product")
